@@ -12,6 +12,7 @@ import KafkaVerif.Lemmas.GroupBalancer
 import KafkaVerif.Lemmas.RackAffinity
 import KafkaVerif.Gen.GroupBalancerSel
 import KafkaVerif.Lemmas.GroupGlue
+import KafkaVerif.Lemmas.GroupWire
 
 namespace KV.C14
 open KV.GroupBalancer KV.Spec.GroupAssign
@@ -544,5 +545,55 @@ theorem rack_round (ρ : TopicMap → TopicMap) (hρ : ∀ l, (ρ l).Perm l) (ms
   ⟨round_good ρ hρ ms cluster got hread _ ids ts t hd.1, hd.2⟩
 
 end Glue
+
+/-! ## 7. The two payloads at byte level (joingroup.go `groupMetadata`, syncgroup.go `groupAssignment`, read.go,
+write.go): what is read back is what was written
+
+This is what justifies the abstraction of §6 ("the wire is the sequence of entries in the order written; metadata
+passes topics and user data through unchanged"): for every well-formed value (lengths and integers fit their wire
+fields) the real reader functions, modelled in the size-threading reader monad of Base/Reader.lean, return exactly the
+written entries / topics in order, consume exactly the written bytes and leave the size counter at 0 — whatever
+follows on the connection. -/
+section Bytes
+open KV.GroupWire
+
+/-- `makeSyncGroupRequestV0` writes `groupAssignment{Version: 1, Topics: topics32}` (UserData nil); `syncGroup` reads it -/
+theorem assignment_bytes_roundtrip (es : List (Bytes × List Int)) (hn : es.length < 2147483648)
+    (he : ∀ e ∈ es, WFEntry e) (rest : Bytes) :
+    readAssignment ⟨writeAssignment ⟨1, es, none⟩ ++ rest, (writeAssignment ⟨1, es, none⟩).length⟩ =
+      (.ok (1, es, []), ⟨rest, 0⟩) :=
+  readAssignment_write ⟨1, es, none⟩ ⟨by unfold Fits; constructor <;> simp, hn, he, by simp [optLen]⟩ rest
+
+/-- `makeJoinGroupRequest` writes `groupMetadata{Version: 1, Topics: config.Topics, UserData: balancer.UserData()}`;
+`makeMemberProtocolMetadata` reads it: same topics in the same order (repeats included), same user data (nil = empty) -/
+theorem metadata_bytes_roundtrip (topics : List Bytes) (userData : Option Bytes) (hn : topics.length < 2147483648)
+    (ht : ∀ t ∈ topics, t.length < 32768) (hu : optLen userData < 2147483648) (rest : Bytes) :
+    readMetadata ⟨writeMetadata ⟨1, topics, userData⟩ ++ rest, (writeMetadata ⟨1, topics, userData⟩).length⟩ =
+      (.ok (1, topics, userData.getD []), ⟨rest, 0⟩) :=
+  readMetadata_write ⟨1, topics, userData⟩ ⟨by unfold Fits; constructor <;> simp, hn, ht, hu⟩ rest
+
+/-- the bytes a member is sent carry exactly the abstract wire of §6: with any naming of the topic keys, the entries
+`syncRequest` lists for a member are read back in order -/
+theorem sync_bytes_carry_wire (name : Nat → Bytes) (hname : ∀ t, (name t).length < 32768) (w : KV.GroupGlue.Wire)
+    (hn : w.length < 2147483648) (hv : ∀ e ∈ w, e.2.length < 2147483648 ∧ FitsAll e.2) (rest : Bytes) :
+    let es := w.map fun e => (name e.1, e.2)
+    readAssignment ⟨writeAssignment ⟨1, es, none⟩ ++ rest, (writeAssignment ⟨1, es, none⟩).length⟩ =
+      (.ok (1, es, []), ⟨rest, 0⟩) := by
+  intro es
+  apply assignment_bytes_roundtrip es (by simpa [es] using hn) _ rest
+  intro e he
+  obtain ⟨x, hx, rfl⟩ := List.mem_map.mp he
+  exact ⟨hname x.1, (hv x hx).1, (hv x hx).2⟩
+
+example : WFEntry ([116, 48], [0, 1, -5]) := by
+  refine ⟨by decide, by decide, ?_⟩
+  intro v hv
+  simp at hv
+  rcases hv with rfl | rfl | rfl <;> (unfold Fits; constructor <;> simp)
+example : (readAssignment ⟨writeAssignment ⟨1, [([116, 48], [0, 7])], none⟩ ++ [9], 26⟩).2 = ⟨[9], 0⟩ ∧
+    writeAssignment ⟨1, [([116, 48], [0, 7])], none⟩ =
+      [0, 1, 0, 0, 0, 1, 0, 2, 116, 48, 0, 0, 0, 2, 0, 0, 0, 0, 0, 0, 0, 7, 255, 255, 255, 255] := by decide
+
+end Bytes
 
 end KV.C14
